@@ -45,6 +45,13 @@ def gen(rng, tier):
             if rng.random() < 0.5:
                 idx.sort()
             haps.append({"id": f"H{h}", "vars": [[f"v{j}", rng.choice(["A", "C"])] for j in idx]})
+        if nv >= 3 and rng.random() < 0.25:
+            # two haplotypes that share their first and last (variant, allele) pair and differ in between
+            j1, j2, j3 = sorted(rng.sample(range(nv), 3))
+            al = [rng.choice(["A", "C"]) for _ in range(3)]
+            haps = [{"id": "H0", "vars": [[f"v{j1}", al[0]], [f"v{j2}", al[1]], [f"v{j3}", al[2]]]}, {"id": "H1", "vars": [[f"v{j1}", al[0]], [f"v{j2}", "A" if al[1] == "C" else "C"], [f"v{j3}", al[2]]]}] + [h for h in haps[2:]]
+            for k, h in enumerate(haps):
+                h["id"] = f"H{k}"
         target_is_hap = rng.random() < 0.5
         target = rng.choice(haps)["id"] if target_is_hap else f"v{rng.randrange(nv)}"
         from_gts = rng.random() < 0.5
@@ -58,7 +65,7 @@ def gen(rng, tier):
                 k_un = len([v for v, _ in tv if v not in ids]) if (from_gts and rng.random() < 0.6) else rng.randint(1, 2)
                 for u in range(k_un):
                     ids.insert(rng.randrange(len(ids) + 1), f"unknown{u}")
-        yield {"data": data, "haps": haps, "target": target, "from_gts": from_gts, "ids": ids, "pgen": rng.random() < 0.3, "samples": rng.choice([None, None, "subset"]), "seed": rng.randrange(2**31), "repeat": rng.random() < 0.4}
+        yield {"data": data, "haps": haps, "target": target, "from_gts": from_gts, "ids": ids, "pgen": rng.random() < 0.3, "samples": rng.choice([None, None, "subset"]), "seed": rng.randrange(2**31), "repeat": rng.random() < 0.4, "indexed": rng.random() < 0.3}
 
 
 def impl(case):
@@ -96,7 +103,14 @@ def impl(case):
         rnd = random.Random(case["seed"])
         want = set(rnd.sample(samples, rnd.randint(2, ns)))
     out = d / ("out.ld" if case["from_gts"] else "out.hap")
-    calc_ld(case["target"], gf, d / "h.hap", samples=want, ids=None if case["ids"] is None else tuple(case["ids"]), from_gts=case["from_gts"], output=out, log=SD.silent_log())
+    hapfile = d / "h.hap"
+    if case.get("indexed"):
+        # the same haplotypes as a sorted, bgzipped and tabix-indexed file (haptools' own `index`, C11)
+        from haptools.index import index_haps
+
+        index_haps(d / "h.hap", sort=True, output=d / "hs.hap.gz", log=SD.silent_log())
+        hapfile = d / "hs.hap.gz"
+    calc_ld(case["target"], gf, hapfile, samples=want, ids=None if case["ids"] is None else tuple(case["ids"]), from_gts=case["from_gts"], output=out, log=SD.silent_log())
     rows = []
     if case["from_gts"]:
         lines = open(out).read().splitlines()
@@ -207,7 +221,7 @@ def oracle(case, obs):
 
 def describe(case, obs):
     tgt_hap = any(h["id"] == case["target"] for h in case["haps"])
-    return [("hap-target" if tgt_hap else "variant-target"), ("from-gts" if case["from_gts"] else "hap-output"), ("ids" if case["ids"] is not None else "no-ids"), ("pgen" if case["pgen"] else "vcf"), ("dup-ids" if case["ids"] and len(set(case["ids"])) < len(case["ids"]) else "uniq-ids"), ("sample-subset" if case["samples"] else "all-samples"), ("some-haplotype-unsorted" if any([int(v[0][1:]) for v in h["vars"]] != sorted(int(v[0][1:]) for v in h["vars"]) for h in case["haps"]) else "haplotypes-sorted")]
+    return [("hap-target" if tgt_hap else "variant-target"), ("from-gts" if case["from_gts"] else "hap-output"), ("ids" if case["ids"] is not None else "no-ids"), ("pgen" if case["pgen"] else "vcf"), ("dup-ids" if case["ids"] and len(set(case["ids"])) < len(case["ids"]) else "uniq-ids"), ("sample-subset" if case["samples"] else "all-samples"), ("indexed-hap.gz" if case.get("indexed") else "plain-hap"), ("some-haplotype-unsorted" if any([int(v[0][1:]) for v in h["vars"]] != sorted(int(v[0][1:]) for v in h["vars"]) for h in case["haps"]) else "haplotypes-sorted")]
 
 
 # ------------------------------------------------------------------ pearson_corr_ld kernel, incl. biobank-size cohorts
